@@ -51,6 +51,13 @@ func (propC14) Gen(seed uint64, tier string, idx int) *Plan {
 			}
 		}
 	}
+	if r.Chance(300) {
+		p.Stack.MaxMessageSize = -1 // max_message_size: 0 ("use the default") must not touch any other translator setting
+	}
+	if r.Chance(400) {
+		// overlapping requests with adversarial pool hand-over: whatever is prepared for one request stays its own
+		p.Yields = map[string]int64{"pool.put": int64(2 * time.Millisecond)}
+	}
 	fault := r.Chance(500)
 	p.Sub = fmt.Sprintf("%s/passthrough=%v/[%s]/fault=%v/%s", mix, p.Stack.Passthrough, strings.Join(types, ","), fault, p.Stack.Engine)
 	for i := 1; i <= nEp; i++ {
@@ -58,7 +65,10 @@ func (propC14) Gen(seed uint64, tier string, idx int) *Plan {
 		ep.Models = []string{"m1"}
 		ep.Default = Resp{Kind: "llm", Status: 200}
 		if fault && r.Chance(450) {
-			switch r.Pick(3) {
+			switch r.Pick(4) {
+			case 3:
+				// dies after its answer has started, and declares no Content-Type: nothing may be dispatched again
+				ep.Default = Resp{Kind: "llm", Status: 200, CType: "none", Framing: "chunked", Fault: &Fault{At: pickS(r, []string{"after-headers", "body"}), K: 1, Kind: pickS(r, []string{"rst", "fin"})}}
 			case 0:
 				ep.HostMode = []Phase{{From: Always, Mode: "refuse"}}
 			case 1:
